@@ -97,7 +97,9 @@ Record fops := {
   fmt10 : F -> txt;                   (* '%.10f' % x *)
   round10 : F -> F;                   (* float('%.10f' % x) *)
   close10 : F -> F -> bool;           (* |a - b| <= 1e-10 *)
-  cam_canon : txt -> option txt       (* Camera.__init__: v = float(s); str(int(v)) if v.is_integer() else str(v) *)
+  cam_canon : txt -> option txt;      (* Camera.__init__: v = float(s); str(int(v)) if v.is_integer() else str(v) *)
+  path_norm : txt -> txt              (* kapture.utils.paths.path_secure = os.path.normpath (not a float operation; kept in
+                                         this record of opaque library operations) *)
 }.
 
 (* ---------------------------------------------------------------- cells, column types, schemas *)
@@ -678,17 +680,28 @@ Section WithFloats.
         end
     end.
 
+  (* matches_from_dir AS THE CODE IS: the pair names are re-derived from the (normalised) match file paths and then
+     filtered against the raw image names of records_camera - a pair with an image path that is not in normpath
+     form is therefore lost (known finding of C01) *)
   Definition match_pairs (t : tree) (imgs : list txt) (kt : txt) : list (txt * txt) :=
+    map (fun e => (path_norm O (fst (snd e)), path_norm O (snd (snd e))))
+        (List.filter (fun e => txt_eqb (fst e) kt && tmem (path_norm O (fst (snd e))) imgs &&
+                               tmem (path_norm O (snd (snd e))) imgs)
+                     (t_matchfiles t)).
+  (* the ideal behaviour (pairs keep the spelling they were saved with); NOT what the code does *)
+  Definition match_pairs_ideal (t : tree) (imgs : list txt) (kt : txt) : list (txt * txt) :=
     map snd (List.filter (fun e => txt_eqb (fst e) kt && tmem (fst (snd e)) imgs && tmem (snd (snd e)) imgs)
                          (t_matchfiles t)).
 
-  Definition load_matches (t : tree) (cams : option table) : result (option (list (txt * list (txt * txt)))) :=
+  Definition load_matches (ideal : bool) (t : tree) (cams : option table)
+    : result (option (list (txt * list (txt * txt)))) :=
     match t_matchdirs t with
     | [] => Ok None
     | dirs =>
         match cams with
         | None => Err
-        | Some _ => Ok (Some (map (fun kt => (kt, match_pairs t (cam_images cams) kt)) dirs))
+        | Some _ => Ok (Some (map (fun kt => (kt, (if ideal then match_pairs_ideal else match_pairs) t (cam_images cams) kt))
+                                  dirs))
         end
     end.
 
@@ -741,7 +754,7 @@ Section WithFloats.
 
   Definition unwrap {A} (r : result (option A)) : option A := match r with Ok x => x | Err => None end.
 
-  Definition load_gen (legacy : bool) (t : tree) : result dataset :=
+  Definition load_gen (legacy ideal : bool) (t : tree) : result dataset :=
     match t_tab t FSensors with
     | None => Err                                                     (* sensors.txt is required *)
     | Some st =>
@@ -758,7 +771,7 @@ Section WithFloats.
                 | Err => Err
                 | Ok cams =>
                     match load_feat t cams KKeypoints, load_feat t cams KDescriptors, load_feat t cams KGlobal,
-                          load_matches t cams, load_p3d legacy t with
+                          load_matches ideal t cams, load_p3d legacy t with
                     | Ok kp, Ok de, Ok gf, Ok ma, Ok p3d =>
                         let tab := load_tab legacy t sensors rigs (sids ++ rig_ids) kp p3d in
                         if forallb (fun f => is_ok (tab f)) all_tfiles then
@@ -773,8 +786,9 @@ Section WithFloats.
             end
         end
     end.
-  Definition load := load_gen false.
-  Definition load_legacy := load_gen true.
+  Definition load := load_gen false false.               (* the code as it is (after the repairs) *)
+  Definition load_legacy := load_gen true false.         (* before the repairs of C01 *)
+  Definition load_ideal_matches := load_gen false true.  (* with match pairs kept in their saved spelling *)
 
   (* what the statement of C01 allows a write / read cycle to change *)
   Definition canon (d : dataset) : dataset :=
@@ -881,20 +895,38 @@ Section WithFloats.
     forallb (fun s => str_ok (fs_key s) && row_wf (fk_schema (fk_feat k)) (fs_cfg s) &&
                       nodup_by txt_eqb (fs_images s)) l.
 
-  Definition matches_wf (l : list (txt * list (txt * txt))) : bool :=
-    match l with [] => false | _ => true end && nodup_by txt_eqb (map fst l).
+  (* strict: the image paths of the match pairs are in normalised form (a match file is named after them) *)
+  Definition pair_normalised (p : txt * txt) : bool :=
+    txt_eqb (path_norm O (fst p)) (fst p) && txt_eqb (path_norm O (snd p)) (snd p).
+  Definition matches_wf (strict : bool) (l : list (txt * list (txt * txt))) : bool :=
+    match l with [] => false | _ => true end && nodup_by txt_eqb (map fst l) &&
+    (negb strict || forallb (fun e => forallb pair_normalised (snd e)) l).
 
   Definition p3d_wf (p : nat * table) : bool :=
     (Nat.eqb (fst p) 3 || Nat.eqb (fst p) 6) &&
     forallb (fun r => Nat.eqb (List.length r) (fst p) && row_wf (p3d_schema (fst p)) r) (snd p).
 
-  Definition wf (d : dataset) : bool :=
+  Definition wf_gen (strict : bool) (d : dataset) : bool :=
     deps_ok d &&
     forallb (fun f => match d_tab d f with Some rows => table_wf (fk_of f) rows | None => true end) all_tfiles &&
     forallb (fun k => match d_feat d k with Some l => feat_wf k l | None => true end) all_featkinds &&
-    match d_matches d with Some l => matches_wf l | None => true end &&
+    match d_matches d with Some l => matches_wf strict l | None => true end &&
     match d_p3d d with Some p => p3d_wf p | None => true end &&
     refs_ok d.
+  (* [wf]: the datasets for which the round trip is exact.  [wf_loose] drops only the condition that the image
+     paths of match pairs are normalised: on those the code loses the non-normalised pairs (see [canon_asis]) *)
+  Definition wf := wf_gen true.
+  Definition wf_loose := wf_gen false.
+
+  (* what the code as it is returns for a [wf_loose] dataset: the canonical form, where a match pair survives
+     (under its normalised spelling) iff the normalised spellings of both image paths are image names *)
+  Definition canon_asis (d : dataset) : dataset :=
+    let imgs := cam_images (d_tab d (FRec RCamera)) in
+    {| d_tab := d_tab (canon d); d_feat := d_feat d; d_p3d := d_p3d (canon d);
+       d_matches := option_map (map (fun e => (fst e,
+                      map (fun p => (path_norm O (fst p), path_norm O (snd p)))
+                          (List.filter (fun p => tmem (path_norm O (fst p)) imgs && tmem (path_norm O (snd p)) imgs) (snd e)))))
+                    (d_matches d) |}.
 
 End WithFloats.
 
@@ -975,7 +1007,8 @@ Record ftabs := {
   ft_show : list (N * string);       (* x -> repr(x) *)
   ft_read : list (string * N);       (* token -> float(token), only tokens float() accepts *)
   ft_fmt10 : list (N * string);      (* x -> '%.10f' % x *)
-  ft_cam : list (string * string)    (* token -> Camera's canonical parameter string *)
+  ft_cam : list (string * string);   (* token -> Camera's canonical parameter string *)
+  ft_norm : list (string * string)   (* path -> os.path.normpath(path), for the paths that are not already normalised *)
 }.
 
 Fixpoint nassoc {B} (k : N) (l : list (N * B)) : option B :=
@@ -989,6 +1022,7 @@ Definition mk_fops (ft : ftabs) : fops :=
   let sh := map (fun p => (fst p, t_of (snd p))) (ft_show ft) in
   let f10 := map (fun p => (fst p, t_of (snd p))) (ft_fmt10 ft) in
   let cam := map (fun p => (t_of (fst p), t_of (snd p))) (ft_cam ft) in
+  let nm := map (fun p => (t_of (fst p), t_of (snd p))) (ft_norm ft) in
   {| F := N; Feqb := N.eqb; fin := bits_fin;
      show_float := fun f => match nassoc f sh with Some s => s | None => [] end;
      read_float := fun s => assoc s rd;
@@ -998,7 +1032,8 @@ Definition mk_fops (ft : ftabs) : fops :=
                          | None => f
                          end;
      close10 := fun a b => Qle_bool (Qabs (Q_of_bits a - Q_of_bits b)) (1 # 10000000000);
-     cam_canon := fun s => assoc s cam |}.
+     cam_canon := fun s => assoc s cam;
+     path_norm := fun s => match assoc s nm with Some x => x | None => s end |}.
 
 (* ==================================================================== correspondence cases *)
 Inductive hcell := HS (s : string) | HI (z : Z) | HF (b : N) | HN.
@@ -1228,8 +1263,9 @@ Definition check_data_case (c : dcase) : bool :=
   let O := mk_fops (dc_ft c) in
   let d := dataset_of (dc_ft c) (dc_data c) in
   let tr := case_tree c in
-  (* the generated dataset is well formed in the sense of the theorems *)
-  wf O d &&
+  (* the generated dataset is well formed in the sense of the theorems, except possibly for match pairs on image
+     paths that are not normalised (known finding: the code loses them; the model says which) *)
+  wf_loose O d &&
   (* a file is written exactly for the parts that are present *)
   forallb (fun f => Bool.eqb (is_some (t_tab tr f)) (is_some (d_tab O d f))) (all_tfiles) &&
   Bool.eqb (is_some (t_p3d tr)) (is_some (d_p3d O d)) &&
@@ -1263,7 +1299,8 @@ Definition check_data_case (c : dcase) : bool :=
      loaded, and that is the canonical form of the dataset *)
   match load O tr, dc_loaded c with
   | Ok dl, Some hl =>
-      dataset_sim dl (dataset_of (dc_ft c) hl) && dataset_sim dl (canon O d) &&
+      dataset_sim dl (dataset_of (dc_ft c) hl) && dataset_sim dl (canon_asis O d) &&
+      (negb (wf O d) || dataset_sim dl (canon O d)) &&
       p3d_close (d_p3d O (canon O d)) (d_p3d O d)
   | _, _ => false
   end.
